@@ -237,7 +237,7 @@ impl Monitor for C02 {
                                         let sk = skew(&after, decs);
                                         let cap = 2.0 + n * sk / 8.0;
                                         let over = (bi(minted + locked_now) - &d1).to_f64().unwrap_or(f64::INFINITY);
-                                        let kf = if (amp as f64) * n < 400.0 && sk >= 50.0 && over <= cap { Some("KF-C02-b") } else { None };
+                                        let kf = if ((amp as f64) * n < 400.0 || sk >= 1000.0) && sk >= 50.0 && over <= cap { Some("KF-C02-b") } else { None };
                                         rep.failed("ss_mint_bound", kf, format!("pool {}: first deposit minted {} LP (incl. locked) for exact D {}", t.pool, minted + locked_now, d1),
                                             witness(json!({"pool": t.pool, "after": jres(&t.after), "exact_D": d1.to_string(), "minted_total": (minted + locked_now).to_string(), "amp": amp, "skew": sk})));
                                     }
@@ -256,7 +256,7 @@ impl Monitor for C02 {
                                         let cap = BigInt::from((2.0 + n * sk / 8.0).min(1e30) as u128);
                                         let rhs_kf = bi(sup0) * (&d1 + 2 + &cap - (&d0 - 2 - &cap));
                                         let lhs_kf = bi(minted) * (&d0 - 2 - &cap);
-                                        let kf = if (amp as f64) * n < 400.0 && sk >= 50.0 && lhs_kf <= rhs_kf { Some("KF-C02-b") } else { None };
+                                        let kf = if ((amp as f64) * n < 400.0 || sk >= 1000.0) && sk >= 50.0 && lhs_kf <= rhs_kf { Some("KF-C02-b") } else { None };
                                         rep.failed("ss_mint_bound", kf,
                                             format!("pool {}: minted {minted} LP exceeds supply {sup0} x growth of exact D ({d0} -> {d1}) beyond the 2-unit granularity", t.pool),
                                             witness(json!({"pool": t.pool, "amp": amp, "decimals": decs, "before": jres(&t.before), "after": jres(&t.after), "D0": d0.to_string(), "D1": d1.to_string(), "supply": sup0.to_string(), "minted": minted.to_string()})));
